@@ -266,14 +266,15 @@ Lemma loop_inv : forall fuel st size read acc, (length (d_rest st) < fuel)%nat -
   | Ok (acc', st') =>
     exists d, acc' = acc ++ d /\ peel d (ref_state st) (ref_state st') /\
               (read + lenN d = size \/ d_done st' = true) /\
-              (length (d_rest st') <= length (d_rest st))%nat /\ read + lenN d <= size
+              (length (d_rest st') <= length (d_rest st))%nat /\ read + lenN d <= size /\
+              (d <> [] -> (length (d_rest st') < length (d_rest st))%nat)
   | Err e => e = OSErrorE /\ Cof (ref_state st) = false
   end.
 Proof.
   induction fuel as [|f IH]; intros st size read acc Hf Hr; [inversion Hf|].
   cbn [dc_loop]. rewrite dc_continue_eq.
   destruct (negb (d_done st) && (read <? size)) eqn:Hc; cbn [negb].
-  2:{ exists []. rewrite app_nil_r. cbn [lenN length N.of_nat]. spl; auto; [apply peel_refl| |lia].
+  2:{ exists []. rewrite app_nil_r. cbn [lenN length N.of_nat]. spl; auto; [apply peel_refl| |lia|congruence].
       destruct (d_done st); [right; reflexivity|left]. cbn [negb andb] in *. lia. }
   apply andb_prop in Hc. destruct Hc as [Hd Hlt].
   assert (Hdone : d_done st = false) by (destruct (d_done st); [discriminate|reflexivity]).
@@ -291,6 +292,7 @@ Proof.
     + rewrite Href. unfold final_of, ref_state. cbn [d_done d_rest]. rewrite HR, Hterm. apply peel_refl.
     + cbn [d_rest]. lia.
     + cbn [lenN length N.of_nat]. lia.
+    + congruence.
   - (* a data chunk, fresh or continued *)
     assert (Hpos : 0 < len1) by lia.
     pose proof (data_inv len1 rest1 size read acc Hpos Hrs) as HD.
@@ -311,12 +313,13 @@ Proof.
     cbn [d_rest] in IH. assert (Hf3 : (length rest3 < f)%nat) by lia. specialize (IH Hf3 Hle).
     destruct (dc_loop f {| d_len := len2; d_done := false; d_rest := rest3 |} size read2 acc2) as [[acc' st']|e].
     2:{ destruct IH as [He Hc]. split; [exact He|]. destruct Hst as [_ [Hcc _]]. rewrite Hcc. exact Hc. }
-    destruct IH as [d [Ha [Hp [Hor [Hl Hsz]]]]]. exists (data ++ d). spl.
+    destruct IH as [d [Ha [Hp [Hor [Hl [Hsz _]]]]]]. exists (data ++ d). spl.
     + rewrite Ha, Hacc, app_assoc. reflexivity.
     + eapply peel_trans; [exact Hst|exact Hp].
     + destruct Hor as [Hor|Hor]; [left|right; exact Hor]. rewrite lenN_app. lia.
     + cbn [d_rest] in Hl. lia.
     + rewrite lenN_app. lia.
+    + intros _. cbn [d_rest] in Hl. lia.
 Qed.
 
 
@@ -324,14 +327,15 @@ Qed.
 Lemma read_inv st size :
   match dc_read st size with
   | Ok (d, st') =>
-    peel d (ref_state st) (ref_state st') /\ (lenN d = size \/ d_done st' = true) /\ lenN d <= size
+    peel d (ref_state st) (ref_state st') /\ (lenN d = size \/ d_done st' = true) /\ lenN d <= size /\
+    (d <> [] -> (length (d_rest st') < length (d_rest st))%nat)
   | Err e => e = OSErrorE /\ Cof (ref_state st) = false
   end.
 Proof.
   unfold dc_read. pose proof (loop_inv (S (length (d_rest st))) st size 0 [] (Nat.lt_succ_diag_r _)) as H.
   assert (H0 : 0 <= size) by lia. specialize (H H0).
   destruct (dc_loop (S (length (d_rest st))) st size 0 []) as [[acc' st']|e]; [|exact H].
-  destruct H as [d [Ha [Hp [Hor [_ Hsz]]]]]. cbn [app] in Ha. subst acc'. spl; auto; lia.
+  destruct H as [d [Ha [Hp [Hor [_ [Hsz Hstrict]]]]]]. cbn [app] in Ha. subst acc'. spl; auto; lia.
 Qed.
 
 (* a finished stream stays finished and yields nothing *)
@@ -344,7 +348,7 @@ Proof. intro H. unfold ref_state. rewrite H. reflexivity. Qed.
 (* one read returns exactly the next min(size, remaining) bytes of the reference body *)
 Lemma read_exact st size d st' : dc_read st size = Ok (d, st') -> d = takeN size (Dof (ref_state st)).
 Proof.
-  intro H. pose proof (read_inv st size) as G. rewrite H in G. destruct G as [[HD _] [Hor Hle]].
+  intro H. pose proof (read_inv st size) as G. rewrite H in G. destruct G as [[HD _] [Hor [Hle _]]].
   rewrite HD. destruct Hor as [Hs|Hdone].
   - rewrite <- Hs. symmetry. apply takeN_app_exact.
   - rewrite (done_ref st' Hdone). unfold Dof. cbn [fst]. rewrite app_nil_r. symmetry. apply takeN_all. exact Hle.
@@ -843,7 +847,8 @@ Lemma environ_path keep b q hs :
             en_query_string e = qtext q.
 Proof.
   intros Hb Hq Hf. unfold make_environ. rewrite (urlsplit_origin_form keep b q Hb Hq Hf).
-  cbn [u_scheme u_netloc u_path u_query is_empty andb negb]. eexists. split; [reflexivity|].
+  cbn [u_scheme u_netloc u_path u_query]. unfold path_info_gen. cbn [nonempty_str negb andb].
+  eexists. split; [reflexivity|].
   cbn [en_path_info en_query_string]. split.
   - unfold unquote. cbn [pct_decode]. replace (SLASH =? PCT) with false by reflexivity.
     rewrite pct_decode_enc by exact Hb. reflexivity.
@@ -873,4 +878,111 @@ Proof.
   change (SLASH :: utf8_encode s) with (utf8_encode [SLASH] ++ utf8_encode s).
   rewrite <- utf8_encode_app. cbn [app].
   rewrite utf8_decode_replace_encode; [reflexivity|]. unfold valid_text in *. cbn [forallb]. rewrite Hv. reflexivity.
+Qed.
+
+(* ------------------------------------------------------------------ response head *)
+Lemma fmt_header k v : fmt header_fmt [k; v] = header_line (k, v).
+Proof. unfold header_line. cbn [fst snd]. reflexivity. Qed.
+
+Lemma fmt_status proto code msg : fmt status_line_fmt [proto; code; msg] = proto ++ [SP] ++ code ++ [SP] ++ msg ++ CRLF.
+Proof. reflexivity. Qed.
+
+Lemma response_head_eq proto expect server date code msg headers chunked :
+  response_head proto expect server date code msg headers chunked
+  = response_head_spec proto expect server date code msg headers chunked.
+Proof.
+  unfold response_head, response_head_spec. f_equal.
+  unfold head_plan. cbn [map concat emit_item default_headers]. rewrite fmt_status, !fmt_header.
+  replace (default_value server date [83; 101; 114; 118; 101; 114]) with server by reflexivity.
+  replace (default_value server date [68; 97; 116; 101]) with date by reflexivity.
+  replace (map (fun kv : str * str => fmt header_fmt [fst kv; snd kv]) headers) with (map header_line headers).
+  2:{ apply map_ext. intros [k v]. symmetry. apply fmt_header. }
+  destruct chunked; rewrite ?fmt_header; unfold end_headers_bytes; repeat rewrite <- app_assoc; cbn [app];
+    repeat rewrite <- app_assoc; reflexivity.
+Qed.
+
+(* ------------------------------------------------------------------ request headers *)
+Lemma list_eqb_refl a : list_eqb a a = true.
+Proof. induction a as [|x a IH]; cbn [list_eqb]; [reflexivity|]. rewrite N.eqb_refl, IH. reflexivity. Qed.
+
+Lemma list_eqb_neq a b : a <> b -> list_eqb a b = false.
+Proof. intro H. destruct (list_eqb a b) eqn:E; [|reflexivity]. apply list_eqb_eq in E. congruence. Qed.
+
+Lemma env_get_set K K' v e : env_get K (env_set K' v e) = if list_eqb K K' then Some v else env_get K e.
+Proof.
+  induction e as [|[k' v'] r IH]; cbn [env_set env_get]; [reflexivity|].
+  destruct (list_eqb K' k') eqn:E1; cbn [env_get].
+  - apply list_eqb_eq in E1. subst k'. destruct (list_eqb K K'); reflexivity.
+  - rewrite IH. destruct (list_eqb K k') eqn:E2; [|reflexivity].
+    apply list_eqb_eq in E2. subst k'. destruct (list_eqb K K') eqn:E3; [|reflexivity].
+    apply list_eqb_eq in E3. subst K'. rewrite list_eqb_refl in E1. discriminate.
+Qed.
+
+(* what one header does to the value stored under the environ key E *)
+Definition upd (E : str) (cur : option str) (kv : str * str) : option str :=
+  if hidden (fst kv) then cur
+  else if list_eqb (env_key (fst kv)) E
+       then if exempt (norm_name (fst kv)) then Some (clean_value (snd kv)) else join_step cur (clean_value (snd kv))
+       else cur.
+
+Lemma step_get E k v env : env_get E (env_header_step_gen k v env) = upd E (env_get E env) (k, v).
+Proof.
+  unfold env_header_step_gen, upd, hidden, env_key, exempt, norm_name, clean_value, CONTENT_TYPE, CONTENT_LENGTH, HTTP_.
+  cbn [fst snd]. destruct (str_contains [95] k); [reflexivity|]. cbv zeta.
+  set (K := str_replace (str_upper k) [45] [95]). set (V := str_replace v [13; 10] []).
+  destruct (mem_str K _) eqn:Hex; cbn [negb].
+  - rewrite env_get_set. destruct (list_eqb E K) eqn:E1.
+    + apply list_eqb_eq in E1. subst E. rewrite list_eqb_refl. reflexivity.
+    + rewrite list_eqb_neq; [reflexivity|]. intro H. subst E. rewrite list_eqb_refl in E1. discriminate.
+  - destruct (list_eqb ([72; 84; 84; 80; 95] ++ K) E) eqn:E1.
+    + apply list_eqb_eq in E1. subst E. destruct (env_get ([72; 84; 84; 80; 95] ++ K) env) as [cur|];
+        rewrite env_get_set, list_eqb_refl; reflexivity.
+    + assert (E2 : list_eqb E ([72; 84; 84; 80; 95] ++ K) = false).
+      { apply list_eqb_neq. intro H. subst E. rewrite list_eqb_refl in E1. discriminate. }
+      destruct (env_get ([72; 84; 84; 80; 95] ++ K) env) as [cur|]; rewrite env_get_set, E2; reflexivity.
+Qed.
+
+Lemma headers_get E : forall hs env, env_get E (env_headers hs env) = fold_left (upd E) hs (env_get E env).
+Proof.
+  induction hs as [|[k v] r IH]; intro env; cbn [env_headers fold_left]; [reflexivity|].
+  rewrite IH, step_get. reflexivity.
+Qed.
+
+Lemma exempt_not_http X K : exempt X = true -> list_eqb X (HTTP_ ++ K) = false.
+Proof.
+  unfold exempt, mem_str, mem_bytes. cbn [existsb]. intro H.
+  apply orb_prop in H. destruct H as [H|H]; [|apply orb_prop in H; destruct H as [H|H]; [|discriminate]];
+    apply list_eqb_eq in H; subst X; reflexivity.
+Qed.
+
+Lemma fold_join K : forall hs cur, 
+  fold_left (upd (HTTP_ ++ K)) hs cur = fold_left join_step (sent_values (HTTP_ ++ K) hs) cur.
+Proof.
+  induction hs as [|[k v] r IH]; intro cur; [reflexivity|].
+  cbn [fold_left]. rewrite IH. unfold sent_values. cbn [filter fst snd]. unfold upd. cbn [fst snd].
+  destruct (hidden k); cbn [negb andb]; [reflexivity|].
+  destruct (list_eqb (env_key k) (HTTP_ ++ K)) eqn:E1; [|reflexivity].
+  cbn [map fold_left fst snd]. destruct (exempt (norm_name k)) eqn:Hx; [|reflexivity].
+  exfalso. unfold env_key in E1. cbv zeta in E1. rewrite Hx in E1. rewrite (exempt_not_http _ K Hx) in E1. discriminate.
+Qed.
+
+Lemma fold_last E : exempt E = true -> forall hs cur,
+  fold_left (upd E) hs cur = fold_left (fun _ v => Some v) (sent_values E hs) cur.
+Proof.
+  intros HE. induction hs as [|[k v] r IH]; intro cur; [reflexivity|].
+  cbn [fold_left]. rewrite IH. unfold sent_values. cbn [filter fst snd]. unfold upd. cbn [fst snd].
+  destruct (hidden k); cbn [negb andb]; [reflexivity|].
+  destruct (list_eqb (env_key k) E) eqn:E1; [|reflexivity].
+  cbn [map fold_left fst snd]. destruct (exempt (norm_name k)) eqn:Hx; [reflexivity|].
+  exfalso. unfold env_key in E1. cbv zeta in E1. rewrite Hx in E1. apply list_eqb_eq in E1. subst E.
+  pose proof (exempt_not_http _ (norm_name k) HE) as H. rewrite list_eqb_refl in H. discriminate.
+Qed.
+
+Lemma environ_headers hs :
+  (forall K, env_get (HTTP_ ++ K) (env_headers hs []) = join_comma (sent_values (HTTP_ ++ K) hs)) /\
+  (forall E, exempt E = true -> env_get E (env_headers hs []) = last_value (sent_values E hs)).
+Proof.
+  split.
+  - intro K. rewrite headers_get. cbn [env_get]. apply fold_join.
+  - intros E HE. rewrite headers_get. cbn [env_get]. apply fold_last. exact HE.
 Qed.
